@@ -700,7 +700,7 @@ func runC05(c *core.Ctx) {
 	}
 
 	// ------------------------------------------------------------ stub and proxy bodies
-	c.Doc("C05.param-loops", "every emitter that encodes or decodes a list of parameters does so once per declared parameter, in declaration order, with the parameter's own type", 3)
+	c.Doc("C05.param-loops", "every emitter that encodes or decodes a list of parameters does so once per declared parameter, in declaration order, with the parameter's own type", 2)
 	c.Doc("C05.stub-body", "the generated stub decodes the parameters before calling the implementation with all of them and encodes the result afterwards", 1)
 	ruleParamLoops(c, typeIface)
 	c.Doc("C05.advertised", "the parameter signature the stub advertises for a method and the one the proxy sends with a call are the same expression of the method", 1)
@@ -831,7 +831,56 @@ func ruleParamLoops(c *core.Ctx, typeIface *types.Interface) {
 			// the stub's method body: decode, call, encode
 			if rel == "meta/stub" && dir == "read" {
 				bad := ""
-				enc := findTok(ts, func(k etok) bool { return k.Kind == "sub" && k.Dir == "write" })
+				isEnc := func(k etok) bool { return k.Kind == "sub" && k.Dir == "write" }
+				enc := findTok(ts, isEnc)
+				if enc == nil {
+					// the body split into two emitters (one reads the arguments, one answers): look at
+					// the emitter that calls this one, helpers followed, in emission order
+					wi := &emitWalker{p: p, info: p.TypesInfo, typeIface: typeIface, inline: true}
+					for _, f := range p.Syntax {
+						for _, d := range f.Decls {
+							g, ok := d.(*ast.FuncDecl)
+							if !ok || g.Body == nil || g == fd || enc != nil {
+								continue
+							}
+							callsFd := false
+							ast.Inspect(g.Body, func(nd ast.Node) bool {
+								if ce, ok := nd.(*ast.CallExpr); ok {
+									if id, ok := ce.Fun.(*ast.Ident); ok && id.Name == fd.Name.Name {
+										callsFd = true
+									}
+								}
+								return !callsFd
+							})
+							if !callsFd {
+								continue
+							}
+							var flat []etok
+							var walk func(ts []etok)
+							walk = func(ts []etok) {
+								for _, t := range ts {
+									flat = append(flat, t)
+									walk(t.Kids)
+								}
+							}
+							walk(wi.block(g.Body.List))
+							iLoop, iEnc := -1, -1
+							for i, t := range flat {
+								if iLoop < 0 && isParamLoop(t) {
+									iLoop = i
+								}
+								if iLoop >= 0 && iEnc < 0 && i > iLoop && isEnc(t) && !(t.Pos >= loop.Pos && t.Pos <= fd.End()) {
+									iEnc = i
+								}
+							}
+							if iLoop >= 0 && iEnc > iLoop {
+								e := flat[iEnc]
+								enc = &e
+								enc.Pos = loop.Pos + 1 // emitted after the loop (order established on the flattened list)
+							}
+						}
+					}
+				}
 				if enc == nil {
 					bad = "the result of the implementation is never encoded"
 				} else if enc.Pos < loop.Pos {
